@@ -118,11 +118,26 @@ CHECKS = [
                 "_ImageParts.__iter__ (dedupe generator) enters as a ghost sequence. Byte-exactness, part naming across slides, "
                 "misleading extensions and save/re-open are covered by the bounded C15.native_images job only (never counted as proved).",
     },
+    {
+        "property_id": "C19",
+        "technique": "contract-based deductive verification (pyvc over the real PackURI members on structured symbolic paths; assumed posixpath contracts; z3 strings)",
+        "category": "proof",
+        "text": "Part names are '/'-joined symbolic segments (z3 strings: non-empty, no '/'), the file name in six shapes (stem.ext, "
+                "stem<n>.ext, stem<n>rest.ext, a.b.ext, extension-less, [bracketed].ext), directory depth enumerated 0..4 (the "
+                "property's bound). The real baseURI/filename/ext/idx/membername/rels_uri/__new__/relative_ref/from_rel_ref run on "
+                "them; obligations: each member equals the OPC definition, '/' pseudo-name, rejection of names without a leading "
+                "slash (all strings), lemma L19 from_rel_ref(dir P, relative_ref(Q, dir P)) == Q for all 25 depth pairs with "
+                "symbolic segments (one path per length of common prefix), dot-segment and root-absolute references resolve as "
+                "RFC 3986.",
+        "note": "Assumed: posixpath.split/splitext/join/normpath/abspath/relpath as contracts on structured paths (pyvc/pathmodel.py) "
+                "and the file-name regex on letter/digit stems; both probed natively against the real posixpath/PackURI on all names "
+                "over a 9-segment alphabet up to depth 3 (C19.posixpath_probe, bounded, never counted as proved).",
+    },
 ]
 
 _PENDING = "check not built yet in this session (planned, see DESIGN.md section 5)"
 NOT_APPLICABLE = [
     {"property_id": p, "reason": _PENDING}
     for p in ["C01", "C02", "C03", "C04", "C05", "C07", "C09", "C12", "C13", "C14", "C16",
-              "C19"]
+              ]
 ]
